@@ -52,8 +52,8 @@ CHECKS = {
         "design_ref": "DESIGN.md section 8 / C13",
     },
     "C14": {
-        "technique": "Lean 4 proof (frame theorem: a flag write through a rule that owns its top-level alternation changes no rule that cannot reach it) + obligations on the extracted heap + subprocess import matrix",
-        "text": "Partial by nature (Python's import system is a runtime mechanism): ownership obligations on the regenerated heap plus a subprocess matrix comparing flags and parse results of each module imported alone vs with the others before/after.",
+        "technique": "Lean 4 proof: frame theorem for flag writes over an object-level heap model (Alternation objects by identity), INSTANTIATED on the object graph of all bundled rules regenerated from /repo on every run: the graph unfolds to exactly the flat rule table (kernel-checked), the top-level Alternation object of every rule is reached from no other rule (kernel-checked), hence setting first_match_alternation on any bundled rule changes no other rule of any module + subprocess import matrix (flags, parse results, lparse end sets of each module imported alone vs with the others before/after)",
+        "text": "C14.bundled_flag_write_frame over regenerated data; partial by nature for the rest (Python's import system is a runtime mechanism): a subprocess matrix compares flags and parse results of each module imported alone vs with the others before/after, and the ownership of top-level Alternation objects is also checked on the live object graph.",
         "design_ref": "DESIGN.md section 8 / C14",
     },
     "C15": {
